@@ -1822,6 +1822,54 @@ def fresh_reserved_cases():
           {'op': 'apply', 'root': {'res': 0}, 'fn': 'inc'}]}
 
 
+FIXED_TREES_R = [
+    # {'SELF': {'w': 1}, 'SKIP': [1, 2], 'a': 2}
+    ([{'t': 'int', 'v': 1}, {'t': 'int', 'v': 2}, {'t': 'dict', 'es': [[{'s': 'w'}, 0]]}, {'t': 'list', 'rs': [0, 1]},
+      {'t': 'dict', 'es': [[{'s': 'SELF'}, 2], [{'s': 'SKIP'}, 3], [{'s': 'a'}, 1]]}], 4),
+    # {'a': {'SELF': 1, 'SKIP': 2}, 'SKIP': ({'SELF': 1},)}
+    ([{'t': 'int', 'v': 1}, {'t': 'int', 'v': 2}, {'t': 'dict', 'es': [[{'s': 'SELF'}, 0], [{'s': 'SKIP'}, 1]]},
+      {'t': 'dict', 'es': [[{'s': 'SELF'}, 0]]}, {'t': 'tuple', 'rs': [3]},
+      {'t': 'dict', 'es': [[{'s': 'a'}, 2], [{'s': 'SKIP'}, 4]]}], 5),
+]
+ALPHABET_R = [{'s': 'SELF'}, {'s': 'SKIP'}, {'s': 'w'}, {'s': 'a'}, {'x': 0}, 'SELF', 'SKIP']
+# {'a': {'SELF': {'SKIP': 1}}, 'SELF': 2}: every path of length <= 3 over the plain and the reserved spellings
+DEEP_TREE_R = ([{'t': 'int', 'v': 1}, {'t': 'int', 'v': 2}, {'t': 'dict', 'es': [[{'s': 'SKIP'}, 0]]}, {'t': 'dict', 'es': [[{'s': 'SELF'}, 2]]},
+                {'t': 'dict', 'es': [[{'s': 'a'}, 3], [{'s': 'SELF'}, 1]]}], 4)
+ALPHABET_DEEP = [{'s': 'a'}, {'s': 'SELF'}, {'s': 'SKIP'}, 'SELF', 'SKIP']
+
+
+def exhaustive_reserved_cases():
+  """Small-exhaustive part of the class: every path of length <= 2 (<= 3 on the deep tree) over an alphabet that holds
+  the plain str keys 'SELF' / 'SKIP' AND the reserved keys, on trees that have such dict keys: copying set + read back +
+  items of the result; read + in-place set + items; multi-key set + multi-key read."""
+  def triple(base, root, p, v):
+    yield {'strict': False, 'heap': copy.deepcopy(base), 'root': root, 'ops': [
+        {'op': 'set', 'root': root, 'keys': {'path': p}, 'value': v, 'in_place': False},
+        {'op': 'get', 'root': {'res': 0}, 'keys': {'path': p}},
+        {'op': 'items', 'root': {'res': 0}},
+        {'op': 'apply', 'root': {'res': 0}, 'fn': 'inc'}]}
+    yield {'strict': False, 'heap': copy.deepcopy(base), 'root': root, 'ops': [
+        {'op': 'get', 'root': root, 'keys': {'path': p}},
+        {'op': 'set', 'root': root, 'keys': {'path': p}, 'value': v, 'in_place': True},
+        {'op': 'items', 'root': root}]}
+  for cells, root in FIXED_TREES_R:
+    n = len(cells)
+    base = copy.deepcopy(cells) + [{'t': 'int', 'v': 99}, {'t': 'int', 'v': 98}, {'t': 'tuple', 'rs': [n, n + 1]}]
+    for p in [[]] + [[a] for a in ALPHABET_R] + [[a, b] for a in ALPHABET_R for b in ALPHABET_R]:
+      yield from triple(base, root, p, n)
+    for a in ALPHABET_R:
+      for b in ALPHABET_R:
+        yield {'strict': False, 'heap': copy.deepcopy(base), 'root': root, 'ops': [
+            {'op': 'set', 'root': root, 'keys': {'multi': [[a], [b]]}, 'value': n + 2, 'in_place': False, 'bare': True},
+            {'op': 'get', 'root': {'res': 0}, 'keys': {'multi': [[a], [b]]}, 'bare': True}]}
+  cells, root = DEEP_TREE_R
+  n = len(cells)
+  base = copy.deepcopy(cells) + [{'t': 'int', 'v': 99}]
+  A = ALPHABET_DEEP
+  for p in [[a] for a in A] + [[a, b] for a in A for b in A] + [[a, b, c] for a in A for b in A for c in A]:
+    yield from triple(base, root, p, n)
+
+
 def _reserved_depths(heap, r, acc, d=0, seen=None):
   """(spelling, depth) of every plain 'SELF'/'SKIP' dict key below cell r (depth = number of keys above it)."""
   seen = set() if seen is None else seen
@@ -1931,6 +1979,11 @@ def gen_cases(ctx):
     n += 1
     yield c
   ctx.count('stage', 'reserved-spelling fresh paths (fixed)', n)
+  n = 0
+  for c in exhaustive_reserved_cases():
+    n += 1
+    yield c
+  ctx.count('stage', 'reserved-spelling exhaustive', n)
   for i in range(1440 if ctx.quick else 24000):
     ctx.count('stage', 'reserved-spelling directed')
     yield make_reserved_case(rng, i)
